@@ -277,6 +277,46 @@ def run(tier):
         moves += int(r["records"][-1].split("moves=")[1].split()[0])
         v.distinct(("threshold", T, p, c, mode))
     stats.update({"growth_threshold_calls": len(cases), "growth_threshold_forced_moves": moves})
+    # ---- (b4) write positions at the far end of the int range on a library-managed buffer (asm_set_offset takes any int): the call
+    # either grows the buffer that far or fails - without overflow in the room arithmetic - and the instance stays usable
+    cases, meta = [], []
+    IM = 2**31 - 1
+    offs = [IM, IM - 1, IM - 10, IM - 19, IM - 20, IM - 21, IM - 40, IM - 5999, IM - 6000, IM - 6020, IM - 12000, 2**30, 2**30 + 2**29, 2**28, 10**8, 65536 * 3 + 1]
+    if full:
+        offs += [IM - k for k in range(22, 6100, 97)] + [2**k for k in range(17, 31)] + [2**k - 20 for k in range(17, 32)]
+    for off in offs:
+        for mode in ("asm", "fit", "cnt"):
+            text = "mov rax, 0x1122334455667788\nmov qword [eax+ebx*8+0x11223344], 0x55667788\nret"
+            cmds = ["new 0 int", "asm 0 %s" % common.hx("clc\nret"), "setoff 0 %d" % off]
+            if mode == "fit":
+                cmds.append("chunk 0 %d" % rnd.choice([16, 17, 4096]))
+            cmds.append(("cnt 0 8 %s" if mode == "cnt" else "asm 0 %s") % common.hx(text))
+            cmds += ["chunk 0 0", "setoff 0 2", "asm 0 %s" % common.hx("nop"), "dump 0 0 3", "del 0"]
+            cases.append(cmds)
+            meta.append((off, mode))
+    res = common.run_cases(asan, cases, tag="c09o", per_case_timeout=60)
+    grown = 0
+    for (off, mode), cmds, r in zip(meta, cases, res):
+        v.count()
+        case = {"key": "offset %d on a library buffer, %s" % (off, mode), "fam": "sweep_offset", "offset": off, "script": cmds}
+        if r["crash"]:
+            v.violation(case, r["crash"]["sig"], (r["crash"]["what"] + "\n" + r["crash"]["stderr"][-1500:]))
+            continue
+        recs = r["records"]
+        a = recs[4 if mode == "fit" else 3].split()
+        if a[0] != "A" or a[1] not in ("0", "1"):
+            v.violation(case, "return-value-not-0/1", " ".join(a))
+            continue
+        if a[1] == "0" and int(a[3]) <= off:
+            v.violation(case, "offset-after-success-not-advanced", " ".join(a))
+            continue
+        d = recs[-2].split()
+        if d[0] != "D" or d[1] != "f8c390":
+            v.violation(case, "instance-unusable-or-earlier-code-lost", " | ".join(recs[-4:]))
+            continue
+        grown += a[1] == "0"
+        v.distinct(("offset", off, mode))
+    stats.update({"huge_offset_calls": len(cases), "huge_offset_calls_that_grew": grown})
     v.sample({"sweep": "len100", "text": [t for n, t in sw if n == "len100"][0]})
     v.sample({"sweep": "keywords", "text": [t for n, t in sw if n == "keywords"][5]})
     # ------------------------------------------------------------------ (c) MSan replay of seeds + the fuzzer's corpus + sweeps
@@ -335,7 +375,7 @@ def run(tier):
     v.cov["rule"] = ("(a) libFuzzer (clang, ASan+UBSan, reports fatal) on a structure-aware target: 8 control bytes choose option values (incl. out-of-range), entry point (str, str+fitting, counting, file, file-counting, "
                      "two calls), chunk size, caller/library buffer, buffer length and start offset, the rest is the NUL-terminated text; dictionary of all mnemonics/registers/keywords/punctuation, seeds = the C01-C05 "
                      "corpora; %d jobs x %d runs; (b) directed sweeps: filtered line lengths 90-110 x 12 line shapes x 13 last-token kinds, 0-8 operands, every keyword pair, every byte value at every position of 6 templates, "
-                     "1 MiB lines, 10^5-line programs, on caller and library buffers in plain/fitting/counting mode; the longest encodings the library emits (ALU/test/mov x 7 memory shapes x size keywords x immediates of 1-8 bytes, incl. ones the destination cannot hold: up to 17 bytes) x chunk sizes around their length x fill levels of the chunk, fitting and counting; programs whose last instructions sweep through the growth thresholds of the library buffer (6000, 12000, ...) under chunk sizes that do / do not divide 6000, with every growth forced to move the mapping; (c) seeds + fuzzer corpus + sweeps replayed under MemorySanitizer. Oracle: no sanitizer report, no signal, "
+                     "1 MiB lines, 10^5-line programs, on caller and library buffers in plain/fitting/counting mode; the longest encodings the library emits (ALU/test/mov x 7 memory shapes x size keywords x immediates of 1-8 bytes, incl. ones the destination cannot hold: up to 17 bytes) x chunk sizes around their length x fill levels of the chunk, fitting and counting; programs whose last instructions sweep through the growth thresholds of the library buffer (6000, 12000, ...) under chunk sizes that do / do not divide 6000, with every growth forced to move the mapping; write positions up to INT_MAX on library buffers (grow that far or fail cleanly); (c) seeds + fuzzer corpus + sweeps replayed under MemorySanitizer. Oracle: no sanitizer report, no signal, "
                      "no hang (10 s watchdog), return value in {0,1}. distinct_nontrivial = distinct directed cases + coverage edges reached by the fuzzer" % (njobs, per))
     v.cov["exhaustive"] = False
     v.cov.update(stats)
